@@ -1278,6 +1278,8 @@ def shrink(case):
 WITNESSES += [
     {'key': 'C09:broadcast-not-supported:ibin',
      'case': {'objs': [['a', [[1.0, 2.0], [3.0, 4.0]]]], 'ops': [['ibin', 'add', 0, ['n2', [[1.0], [2.0]]]]]}},
+    {'key': 'C09:setitem-from-itself-reads-written-values',
+     'case': {'objs': [['v', [1.0, 2.0], False]], 'ops': [['set', 0, ['li', [1, 0]], ['o', 0], {'raw': True}]]}},
     {'key': 'C09:result-shape:bin',
      'case': {'objs': [['a', [[1.0, 2.0, 3.0]]]], 'ops': [['bin', 'add', 0, ['n2', [[1.0, 1.0, 1.0], [2.0, 2.0, 2.0]]]]]}},
 ]
